@@ -38,6 +38,10 @@ func (c *Conn) handleIdle(dec *imapwire.Decoder) error {
 	c.setReadTimeout(idleReadTimeout)
 	line, isPrefix, err := c.br.ReadLine()
 	close(stop)
+	// Always wait for the goroutine to return: the session must not be used
+	// concurrently by Idle and by whatever comes next (another command, or
+	// Session.Close when the connection is gone)
+	idleErr := <-done
 	if err == io.EOF {
 		return nil
 	} else if err != nil {
@@ -46,5 +50,5 @@ func (c *Conn) handleIdle(dec *imapwire.Decoder) error {
 		return newClientBugError("Syntax error: expected DONE to end IDLE command")
 	}
 
-	return <-done
+	return idleErr
 }
